@@ -3,7 +3,7 @@
 Engine: fault enumeration on the virtual tty.  For every (initial attribute set, operation, reply /
 keystroke schedule) the fault-free execution is run first; it makes N numbered environment calls
 (tcgetattr, tcsetattr, tcdrain, write, select, read, ioctl, monotonic, the caller's more(), and for
-draw() every stdout write / flush / sleep).  Then the same execution is repeated once per
+draw() every stdout write / flush / sleep and the renderable's finalizer hook).  Then the same execution is repeated once per
 (k in 1..N) x {exception INSTEAD of call k, exception right AFTER call k} x exception kind.
 Oracle: the tty's struct termios after the operation returned or raised == before, byte for byte; and
 a fixed fault-free follow-up (read_tty_all + a DA1 query) run afterwards in the same process - after
@@ -77,6 +77,37 @@ def make_more(tty, kind):
         return r
 
     return more
+
+
+_FIN = {}
+_CURRENT = [None]        # the renderable of the running execution (finalizer calls of older ones are not its calls)
+
+
+def fin_classes():
+    """Harness renderables whose finalizer hook `_finalize_render_data_` is a numbered environment call
+    (a fault point like any other): what a subclass releasing a resource there can raise."""
+    if _FIN:
+        return _FIN
+    from ..renderables import classes
+
+    ns = classes()
+
+    def mk(base):
+        class Fin(base):
+            @classmethod
+            def _finalize_render_data_(cls, render_data):
+                tty = world.W.tty
+                mine = tty is not None and _CURRENT[0] is not None and ns.owners.get(id(render_data)) is _CURRENT[0]
+                n = tty._enter("finalize") if mine else None
+                super()._finalize_render_data_(render_data)
+                if mine:
+                    tty._leave(n)
+
+        Fin.__name__ = Fin.__qualname__ = "Fin" + base.__name__
+        return Fin
+
+    _FIN.update(FinTextR=mk(ns.TextR), FinClearR=mk(ns.ClearR), TextR=ns.TextR, ClearR=ns.ClearR)
+    return _FIN
 
 
 # ---------------------------------------------------------------------------------- one execution
@@ -153,7 +184,8 @@ def execute(case, chooser, fault=None):
             from ..renderables import classes
 
             ns = classes()
-            r = ns.make(case.get("frames", 1), (3, 2), 100, "plain", cls=getattr(ns, case.get("cls", "TextR")))
+            r = ns.make(case.get("frames", 1), (3, 2), 100, "plain", cls=fin_classes()[case.get("cls", "TextR")])
+            _CURRENT[0] = r
             r.draw(animate=True, loops=1, hide_cursor=case.get("hide_cursor", True), echo_input=False)
         else:
             raise world.HarnessError(f"unknown op {op}")
@@ -167,6 +199,7 @@ def execute(case, chooser, fault=None):
     restoring = restoring_calls(tty) if fault is None else None
     # fixed fault-free follow-up in the same process: whatever happened before (including a fault at the
     # restoring tcsetattr itself), later operations must again leave the terminal as THEY find it
+    _CURRENT[0] = None
     tty.fault = None
     tty.log_calls = False
     tty.chooser = None           # the follow-up is one fixed execution: replies arrive at once, no schedule choices
@@ -373,7 +406,7 @@ def build_cases(tier):
         # Renderable.draw with echo suppressed
         for frames in (1, 2):
             for hc in (True, False):
-                for cls in (("TextR",) if quick else ("TextR", "ClearR")):
+                for cls in (("FinTextR",) if quick else ("FinTextR", "FinClearR")):
                     add(dict(op="draw", attrs=at, frames=frames, hide_cursor=hc, cls=cls, excs=excs,
                              out_excs=base_excs if quick else base_excs + ["BrokenPipeError"]))
     return cases
@@ -427,7 +460,8 @@ def run(ctx):
         operations=["query_terminal(more: until-c/stop-after-2/raise@1/raise@3/always-true; timeout None/0.05)",
                     "read_tty(timeout None/0/0.05/-1 x min 0/1/3 x echo x more default/stop-after-2/raise@1/raise@2 x input)",
                     "read_tty_all", "get_cell_size (16t / 14t fallback)", "get_fg_bg_colors", "get_terminal_name_version",
-                    "KittyImage.is_supported", "Renderable.draw(echo_input=False) static/animated x hide_cursor"],
+                    "KittyImage.is_supported", "Renderable.draw(echo_input=False) static/animated x hide_cursor, the renderable's "
+                    "_finalize_render_data_ hook being a fault point"],
         fault_modes=["instead", "after"],
         exceptions=["KeyboardInterrupt", "SystemExit", "SignalAbort(BaseException)", "OSError"] if quick else
         ["KeyboardInterrupt", "SystemExit", "SignalAbort(BaseException)", "OSError", "termios.error", "BrokenPipeError (stdout)"],
